@@ -178,7 +178,7 @@ func runC10(c *core.Ctx, crashes, deep bool) {
 		cleanEffect(c, n, pr, e.PM.On(n.Name).CleanPointAt(pr, r.Height-1), cp.Sequence, before, "remote")
 	}
 
-	steps := 90 + ch.Int(110)
+	steps := (90 + ch.Int(110)) * c.Scale
 	for i := 0; i < steps; i++ {
 		c.Step("c10")
 		switch ch.Pick([]int{22, 34, 14, 8, 12, 6, 4, 5}) {
